@@ -150,6 +150,12 @@ def judge(case) -> Outcome:
     for output in ("pandas", "numpy", "sparse"):
         paths.append((f"pandas/spec_reuse_override/{output}", lambda o=output: rspec.get_model_matrix(df, output=o, **dk())))
         paths.append((f"pandas/model_matrix(spec)/{output}", lambda o=output: model_matrix(rspec, df, output=o, **dk())))
+        # a model matrix (or structure of them) handed in as the spec, with an option override
+        paths.append((f"pandas/model_matrix(matrix)/{output}", lambda o=output: model_matrix(ref, df, output=o, **dk())))
+        paths.append((f"pandas/materializer(matrix)/{output}", lambda o=output: PandasMaterializer(df).get_model_matrix(ref, output=o, **dk())))
+        # the same columns handed over as a plain mapping name -> column
+        paths.append((f"dict/model_matrix/{output}", lambda o=output: model_matrix(f, {c: df[c] for c in df.columns}, output=o, context={}, **kw, **dk())))
+    paths.append(("dict/Formula/numpy", lambda: Formula(f).get_model_matrix({c: df[c] for c in df.columns}, output="numpy", context={}, **kw, **dk())))
     for output in ("pandas", "numpy", "sparse", "narwhals"):
         paths.append((f"narwhals(pandas)/model_matrix/{output}", lambda o=output: model_matrix(f, df, output=o, materializer="narwhals", context={}, **kw, **dk())))
     if case["arrow"]:
